@@ -33,6 +33,8 @@ enum Res {
   SendOk(u64),
   SendFull(u64),
   SendClosed(u64),
+  /// blocking send failed: SendError carries no value, the channel must drop it (once)
+  SendClosedDropped(u64),
   Val(u64),
   Empty,
   Disc,
@@ -58,7 +60,7 @@ macro_rules! impl_tx {
         let id = p.0;
         match <$t>::send(self, p) {
           Ok(()) => Res::SendOk(id),
-          Err(_) => Res::SendClosed(id),
+          Err(_) => Res::SendClosedDropped(id),
         }
       }
       fn try_send(&mut self, p: P) -> Res {
@@ -332,6 +334,7 @@ fn judge(sc: &Scenario, r: &OneRun) -> Option<(String, String)> {
   }
   let mut sent_ok = Vec::new();
   let mut handed_back = Vec::new();
+  let mut refused = Vec::new();
   let mut got = Vec::new();
   let mut drained = false;
   for (ti, th) in sc.threads.iter().enumerate() {
@@ -341,6 +344,7 @@ fn judge(sc: &Scenario, r: &OneRun) -> Option<(String, String)> {
       match res {
         Res::SendOk(id) => sent_ok.push(*id),
         Res::SendFull(id) | Res::SendClosed(id) => handed_back.push(*id),
+        Res::SendClosedDropped(id) => refused.push(*id),
         Res::Val(id) => {
           if seen_disc {
             return Some(("C04:value-after-disc".into(), format!("thread {ti} received {id} after Disconnected")));
@@ -388,7 +392,12 @@ fn judge(sc: &Scenario, r: &OneRun) -> Option<(String, String)> {
   }
   // drops: after all handles are gone every id was dropped exactly once unless it was
   // returned to user code (received or handed back; those we forget()) => channel drops = accepted - received
-  for id in sent_ok.iter().chain(handed_back.iter()) {
+  for id in &refused {
+    if got.contains(id) {
+      return Some(("C01:phantom".into(), format!("id {id} was received although its send reported Closed")));
+    }
+  }
+  for id in sent_ok.iter().chain(handed_back.iter()).chain(refused.iter()) {
     let d = DROPS[*id as usize % MAXID].load(Ordering::SeqCst);
     let returned = got.contains(id) || handed_back.contains(id);
     if returned && d != 0 {
